@@ -1,5 +1,5 @@
 from itertools import product
-from numpy import cos, pi, log, exp, mean, sqrt, tanh
+from numpy import cos, pi, log, exp, mean, sqrt, tanh, inf
 from numpy import array, ndarray, linspace, zeros, atleast_1d
 from scipy.integrate import simpson, quad
 from scipy.optimize import minimize
@@ -117,11 +117,13 @@ class UnimodalPdf(DensityEstimator):
         inverse_sort = sorter.argsort()
         v = x[sorter]
         intervals = zeros(x.size)
-        intervals[0] = (
-            quad(self.__call__, self.lwr_limit, v[0])[0]
-            if v[0] > self.lwr_limit
-            else 0.0
-        )
+        # the probability below 'lwr_limit' is integrated in standardised
+        # coordinates, where the infinite-range quadrature is well-scaled
+        x0, s0 = self.MAP[0], self.MAP[1]
+        z_tail = (min(v[0], self.lwr_limit) - x0) / s0
+        intervals[0] = s0 * quad(lambda z: self(x0 + s0 * z), -inf, z_tail)[0]
+        if v[0] > self.lwr_limit:
+            intervals[0] += quad(self.__call__, self.lwr_limit, v[0])[0]
         for i in range(1, x.size):
             intervals[i] = quad(self.__call__, v[i - 1], v[i])[0]
         integral = intervals.cumsum()[inverse_sort]
